@@ -399,47 +399,43 @@ def coq_value(text):
 
 
 def coq_tie(rep, o, flagged, seed):
-    """Compare the observations with the model inside Coq. Returns (ok, variant, n_diff)."""
+    """Compare the observations with the model inside Coq. Returns (ok, n_diff)."""
     tdir = os.path.join(vlib.COQ, "Tables")
     try:
         src = gen_coq(o)
     except DumpError as e:
         rep.violation("tie:dump", "cannot convert a dump into a model term: %s" % e,
                       {"property": PID, "broken_tie": "dump -> Coq term conversion", "error": str(e)}, False)
-        return False, None, 0
+        return False, 0
     open(os.path.join(tdir, "EqOrdCasesGen.v"), "w").write(src)
     c1 = vlib.coqc("Tables/EqOrdCasesGen.v")
     if c1.returncode != 0:
         raise RuntimeError("generated EqOrdCasesGen.v does not compile: " + (c1.stderr or c1.stdout)[-2000:])
     c2 = vlib.coqc("Tables/EqOrdCasesCheck.v")
-    variant = None
-    m = re.search(r"=\s*\((true|false),\s*(true|false)\)", c2.stdout)
-    if m:
-        variant = "as-coded" if m.group(1) == "true" else ("repaired" if m.group(2) == "true" else "neither")
     if c2.returncode == 0:
-        return True, variant, 0
+        return True, 0
     # on-break protocol: locate the differing cases; the oracle has already judged each pair
     c3 = vlib.coqc("Tables/EqOrdCasesDiag.v")
     val = coq_value(c3.stdout) if c3.returncode == 0 else None
     if val is None:
         rep.violation("tie:diag", "cases_match_model fails and the diagnosis did not run: " + (c3.stderr or c2.stderr)[-800:],
                       {"property": PID, "broken_tie": "Tables/EqOrdCasesCheck.v"}, False)
-        return False, variant, 0
+        return False, 0
     pair_diag, stream_diag, spec_diag, desc_diag = val
     n_desc = len(desc_diag)
-    for (i, j, impl, coded, fixed) in desc_diag:
+    for (i, j, impl, coded) in desc_diag:
         if ("desc", i, j) in flagged:
             continue
         rep.violation("tie:desc", "implementation and model disagree on ==/cmp of the descriptors %s | %s: impl %s model %s" %
                       (o["V"]["desc"][i][1], o["V"]["desc"][j][1], list(impl), list(coded)),
                       {"property": PID, "seed": seed, "domain": "desc", "broken_tie": "cases_match_model (descriptors)",
                        "values": {str(i): o["V"]["desc"][i][1], str(j): o["V"]["desc"][j][1]},
-                       "implementation": list(impl), "model_as_coded": list(coded), "model_repaired": list(fixed)}, False)
+                       "implementation": list(impl), "model": list(coded)}, False)
     n = n_desc
     comp = ["==", "cmp", "hash"]
     cmpn = ["Less", "Equal", "Greater", "panic"]
     for dom, rows in zip(MS_DOMS, pair_diag):
-        for (i, j, impl, coded, fixed, same) in rows:
+        for (i, j, impl, coded, same) in rows:
             n += 1
             which = [comp[k] for k in range(3) if impl[k] != coded[k]]
             key = "tie:" + "+".join(which)
@@ -450,8 +446,8 @@ def coq_tie(rep, o, flagged, seed):
                           ("/".join(which), dom, o["V"][dom][i][1], o["V"][dom][j][1], impl[0], cmpn[impl[1]], impl[2],
                            coded[0], cmpn[coded[1]], coded[2]),
                           {"property": PID, "seed": seed, "domain": dom, "broken_tie": "cases_match_model (Tables/EqOrdCasesCheck.v)",
-                           "a": o["V"][dom][i][1], "b": o["V"][dom][j][1], "implementation": list(impl), "model_as_coded": list(coded),
-                           "model_repaired": list(fixed), "structurally_equal": same}, False)
+                           "a": o["V"][dom][i][1], "b": o["V"][dom][j][1], "implementation": list(impl), "model": list(coded),
+                           "structurally_equal": same}, False)
     for dom, ids in zip(MS_DOMS, stream_diag):
         for i in ids:
             n += 1
@@ -468,7 +464,7 @@ def coq_tie(rep, o, flagged, seed):
     if n == 0:
         rep.violation("tie:unknown", "EqOrdCasesCheck.v fails: " + (c2.stderr or c2.stdout)[-800:],
                       {"property": PID, "broken_tie": "Tables/EqOrdCasesCheck.v"}, False)
-    return False, variant, n
+    return False, n
 
 
 def run(rep, tier, seed, replay):
@@ -492,7 +488,7 @@ def run(rep, tier, seed, replay):
         raise RuntimeError("eqord engine failed: " + p.stderr[-2000:])
     o = parse_output(p.stdout)
     stats, flagged = oracle(rep, o, seed)
-    tie_ok, variant, ndiff = coq_tie(rep, o, flagged, seed)
+    tie_ok, ndiff = coq_tie(rep, o, flagged, seed)
 
     kinds, obs_hist, dom_hist = {}, {}, {}
     for dom in o["M"]:
@@ -518,7 +514,6 @@ def run(rep, tier, seed, replay):
         "trusted_base": vlib.TRUSTED_BASE_COMMON + [
             "the canonical dump (harness/src/ast.rs dump_str and the descriptor/policy dumps of eqord.rs) as the structural-equality oracle",
             "Ord/Eq/Hash of the key type DefiniteDescriptorKey (supplied to the model as a rank table; a total order in the theorems)"],
-        "model_variant_matching_this_tree": variant,
         "evaluations": stats["pairs"] + stats["triples"] + stats["sets"] + stats["clones"],
         "distinct_nontrivial": sum(len(v) for v in o["V"].values()),
         "pairs": stats["pairs"], "triples": stats["triples"], "set_groups": stats["sets"], "clones": stats["clones"],
